@@ -194,6 +194,13 @@ static void run_child(const JVal &spec)
 	      simf_add_fault((int) x.num("obj", 0), op_code(x.str("op", "write")), (long) x.num("k", 0), kind_code(x.str("kind", "error")),
 			     (int) x.num("errno", EIO), (long) x.num("bytes", 0), (int) x.num("sticky", 0));
 	    }
+	if (const JVal *pl = f->get("parties"))
+	  for (size_t i = 0; i < pl->a.size(); ++i)
+	    {
+	      const JVal &x = pl->a[i];
+	      std::string at = x.str("at", "system");
+	      simf_add_party(at == "system" ? -1 : (int) x.num("obj", 0), at == "system" ? -1 : op_code(at), (long) x.num("k", 0), x.str("cmd").c_str());
+	    }
 	if (f->num("helper", 0)) simf_helper_start();
 	if (!simf_install()) { fprintf(stderr, "SIM-F: cannot install seccomp filter: %s\n", strerror(errno)); _exit(114); }
       }
@@ -256,6 +263,8 @@ static void print_child_info(FILE *resf)
 	    }
 	  printf("],\"fired\":[");
 	  for (int i = 0; i < S->nfault; ++i) printf("%s%d", i ? "," : "", S->fault[i].fired);
+	  printf("],\"parties\":[");
+	  for (int i = 0; i < 4; ++i) printf("%s[%d,%d]", i ? "," : "", S->party_fired[i], S->party_status[i]);
 	  printf("]}");
 	}
       if (CS->simt_used)
